@@ -228,6 +228,30 @@ func genAlloc(r *Rng, tier string, n int, emit func(string)) {
 		for i := 0; i < 6+cr.Intn(8); i++ {
 			ops = append(ops, genProbe(cr, pats, methods))
 		}
+		// families chosen by the case number: the linear scans of childKeys on nodes with more than 32 children (a
+		// conversion of the key bytes would no longer fit a stack buffer there)
+		const wide = "0123456789abcdefghijklmnopqrstuvwxyzABCDEFGHIJKLMNOPQRSTUVWXYZ"
+		switch c % 16 {
+		case 3:
+			// an ignored trailing slash found by scanning a wide node for its '/' child
+			base := Pick(cr, []string{"/w", "/api/v", "/{t}/w"})
+			nk := 33 + cr.Intn(len(wide)-33+1)
+			ops = append(ops, fmt.Sprintf("H,%s,%s,1,%d", methods[0], hx(base+"/"), 2000))
+			for j, i := range cr.Perm(len(wide))[:nk] {
+				ops = append(ops, fmt.Sprintf("H,%s,%s,0,%d", methods[0], hx(base+string(wide[i])+Pick(cr, []string{"", "x"})), 2001+j))
+			}
+			ops = append(ops, "L,"+methods[0]+",_,"+hx(strings.ReplaceAll(base, "{t}", "q")), "L,"+methods[0]+",_,"+hx(strings.ReplaceAll(base, "{t}", "q")+"/"))
+		case 11:
+			// the path-only fallback of a method with many hostnames (the root is scanned for its '/' child), and a
+			// hostname among many
+			nk := 33 + cr.Intn(len(wide)-33+1)
+			ops = append(ops, fmt.Sprintf("H,%s,%s,0,%d", methods[0], hx("/fb/{id}"), 2000))
+			for j, i := range cr.Perm(len(wide))[:nk] {
+				ops = append(ops, fmt.Sprintf("H,%s,%s,0,%d", methods[0], hx(string(wide[i])+"h.example.com/fb/{id}"), 2001+j))
+			}
+			ops = append(ops, "L,"+methods[0]+","+hx("-unknown.example.org")+","+hx("/fb/7"), "L,"+methods[0]+",_,"+hx("/fb/7"),
+				"L,"+methods[0]+","+hx("ah.example.com")+","+hx("/fb/7"), "L,"+methods[0]+","+hx("Zh.example.com:8080")+","+hx("/fb/7"))
+		}
 		emit("alloc\t" + strings.Join(ops, ";"))
 	}
 }
